@@ -3,6 +3,7 @@
   function the property names (Spec/C05: `roundTo`, half away from zero).
 -/
 import GoblVerif.Spec.C05
+import GoblVerif.Spec.C02
 import GoblVerif.Model.Calc
 
 namespace GoblVerif.Spec.C01
@@ -126,6 +127,45 @@ def exactQ (d : Doc) : TotalsQ :=
   { sum, discount, charge, taxIncluded := inc, total, tax, totalWithTax := twt, payable, advances,
     due := payable - advances }
 
+/-! ## the rows of the tax summary in exact arithmetic -/
+
+/-- a row total with the included tax taken out by an exact division (the `t'` of `rowTaxQ`) -/
+def exclQ (includes : Option String) (t : Rat) (taxes : List Combo) : Rat :=
+  match includes with
+  | none => t
+  | some k =>
+    match taxes.find? (fun cb => cb.cat == k) with
+    | some cb => (match cb.percent with | some p => t / (1 + pq p) | none => t)
+    | none => t
+
+/-- the rows the tax summary is built from, exactly: line totals, document discounts (negated),
+document charges, each with the included tax taken out, and their combos -/
+def exactTaxRows (d : Doc) : List (Rat × List Combo) :=
+  let lts := d.lines.map (fun l => (lineTotalQ d.cur d.rates l, l.taxes))
+  let sum := (lts.filterMap (·.1)).sum
+  let ds := d.discounts.map (fun x => (docAdjQ sum x, x.taxes))
+  let cs := d.charges.map (fun x => (docAdjQ sum x, x.taxes))
+  let rows : List (Rat × List Combo) :=
+    lts.filterMap (fun x => x.1.map (fun t => (t, x.2))) ++ ds.map (fun x => (-x.1, x.2)) ++ cs
+  rows.map (fun r => (exclQ d.includes r.1 r.2, r.2))
+
+/-- exact amount of tax category `k`: Σ rows Σ combos of the category, row × percentage -/
+def catAmountQ (d : Doc) (k : String) : Rat :=
+  ((exactTaxRows d).map (fun r => ((r.2.filter (fun cb => cb.cat == k)).map
+    (fun cb => match cb.percent with | some p => r.1 * pq p | none => 0)).sum)).sum
+
+/-- exact surcharge of tax category `k` -/
+def catSurchargeQ (d : Doc) (k : String) : Rat :=
+  ((exactTaxRows d).map (fun r => ((r.2.filter (fun cb => cb.cat == k)).map
+    (fun cb => match cb.percent with
+      | some _ => r.1 * (match cb.surcharge with | some s => pq s | none => 0)
+      | none => 0)).sum)).sum
+
+/-- exact base of the rate group `key` of category `cat`: the row once per combo of the group -/
+def groupBaseQ (d : Doc) (cat : String) (key : Spec.C02.GroupKey) : Rat :=
+  ((exactTaxRows d).map (fun r => ((r.2.filter
+    (fun cb => decide (cb.cat = cat ∧ Spec.C02.keyOfCombo cb = key))).map (fun _ => r.1)).sum)).sum
+
 end GoblVerif.Spec.C01
 
 /-! ## weights of the error bound and the decidable document class of `Props.C01.calc_eq_spec`
@@ -245,10 +285,165 @@ def inDocC (d : Doc) : Bool :=
   (match d.rounding with | some x => decide (x.exp ≤ d.c + 2) | none => true) &&
   d.advances.all (advOkB d.c)
 
+/-! ### prices including one tax category (`prices_include`)
+
+`removeIncludedTaxes` divides the prepared total of every row that carries a combo of the included
+category (with a percentage) by 1 + percentage: one more rounding point for that row (`incB`).  The
+amount of the included category (`tax_included`) is subtracted from `total`: its own rounding points
+are the rate groups of that category (`incGroupsOf`) and it carries the rows' errors once per combo of
+the category (`kN`). -/
+
+/-- the extra rounding point of a row: 1 when the included category occurs on it with a percentage -/
+def incB (inc : Option String) (taxes : List Combo) : Nat :=
+  match inc with
+  | none => 0
+  | some k =>
+    match taxes.find? (fun cb => cb.cat == k) with
+    | some cb => if cb.percent.isSome then 1 else 0
+    | none => 0
+
+/-- number of combos of the included category on a row -/
+def kN (inc : Option String) (taxes : List Combo) : Nat :=
+  match inc with
+  | none => 0
+  | some k => (taxes.filter (fun cb => cb.cat == k)).length
+
+/-- number of combos of the rate group `(cat, key)` on a row -/
+def gN (cat : String) (key : Spec.C02.GroupKey) (taxes : List Combo) : Nat :=
+  (taxes.filter (fun cb => decide (cb.cat = cat ∧ Spec.C02.keyOfCombo cb = key))).length
+
+/-- the rows' errors carried into a quantity that is `L taxes`-Lipschitz in the row total: lines with
+their own weight, document discounts / charges with 1 + the weight of the sum, each plus `incB` -/
+def rowsWL (L : List Combo → Nat) (inc : Option String) (d : Doc) : Nat :=
+  (d.lines.map (fun l => (lineW l + incB inc l.taxes) * L l.taxes)).sum +
+  (d.discounts.map (fun x => (1 + sumW d.lines + incB inc x.taxes) * L x.taxes)).sum +
+  (d.charges.map (fun x => (1 + sumW d.lines + incB inc x.taxes) * L x.taxes)).sum
+
+/-- rate groups of the included category in a tax summary -/
+def incGroupsOf (inc : Option String) (cats : List CatTotal) : Nat :=
+  match inc with
+  | none => 0
+  | some k =>
+    match cats.find? (fun ct => ct.code == k) with
+    | some ct => ct.rates.length
+    | none => 0
+
+def incGroupsT (inc : Option String) (t : Totals) : Nat :=
+  match t.taxes with
+  | some tx => incGroupsOf inc tx.cats
+  | none => 0
+
+/-- weight of the tax when prices may include a category -/
+def taxWI (d : Doc) (G : Nat) : Nat := G + rowsWL comboW d.includes d
+/-- weight of `tax_included` -/
+def incWI (d : Doc) (Gk : Nat) : Nat := Gk + rowsWL (kN d.includes) d.includes d
+/-- weight of `total` = sum − discounts + charges − tax_included -/
+def totalWI (d : Doc) (Gk : Nat) : Nat := totalW d + incWI d Gk
+def twtWI (d : Doc) (G Gk : Nat) : Nat := totalWI d Gk + taxWI d G
+def advWI (d : Doc) (G Gk : Nat) : Nat := d.advances.length * (1 + twtWI d G Gk)
+def dueWI (d : Doc) (G Gk : Nat) : Nat := twtWI d G Gk + advWI d G Gk
+
+/-- a combo of the included category has a percentage ≥ 0 -/
+def incPosB (inc : Option String) (cb : Combo) : Bool :=
+  match inc with
+  | none => true
+  | some k => !(cb.cat == k) || (match cb.percent with | some p => decide (0 ≤ p.amount.value) | none => true)
+
+/-- the class of `Props.C01.calc_eq_spec_included`, decided: as `inDocC`, but the prices may include
+one tax category, which must not be retained and whose percentages must not be negative -/
+def inDocI (d : Doc) : Bool :=
+  d.rule == .precise && !d.lines.isEmpty && d.lines.all (adjLineB d.c) &&
+  d.discounts.all (docAdjOkB d.c) && d.charges.all (docAdjOkB d.c) &&
+  (match d.includes with | some k => !(retOf d k) | none => true) &&
+  (allCombos d).all (fun cb => comboOkB (retOf d) cb && incPosB d.includes cb) &&
+  (match d.rounding with | some x => decide (x.exp ≤ d.c + 2) | none => true) &&
+  d.advances.all (advOkB d.c)
+
+/-- the largest weight of a calculated document whose prices may include a tax category -/
+def docWeightI (d : Doc) : Nat :=
+  match calculate exactOps d with
+  | .ok out => (match out.totals with
+      | some t => dueWI d (groupsT t) (incGroupsT d.includes t)
+      | none => 0)
+  | .error _ => 0
+
 /-- the largest weight of a calculated document (that of the amount due); 0 when nothing was calculated -/
 def docWeight (d : Doc) : Nat :=
   match calculate exactOps d with
   | .ok out => (match out.totals with | some t => dueW d (groupsT t) | none => 0)
+  | .error _ => 0
+
+
+/-! ### tighter weights: the actual percentages instead of their bound of 100 %
+
+Rational weights (still in half-units of the working precision).  A percentage row multiplies the
+error it inherits by |percentage|, not by 1; a fixed amount has no rounding point and inherits
+nothing; a tax combo carries |percentage| + |surcharge percentage| of its row's error into the tax.
+The line weights `lineW` are kept.  `Props.C01.calc_eq_spec_tight`. -/
+
+def ratAbs (x : Rat) : Rat := if x < 0 then -x else x
+
+/-- |percentage| as a rational -/
+def pctA (p : Pct) : Rat := ratAbs p.amount.toRat
+
+/-- rounding points of a document discount / charge row: 1 for a (non-zero) percentage, 0 for a fixed amount -/
+def adjR (x : DocAdj) : Rat :=
+  match x.percent with
+  | some p => if pctIsZero p then 0 else 1
+  | none => 0
+
+/-- factor by which such a row inherits the error of the document sum: |percentage| for a
+percentage of the sum, 0 for a percentage of an explicit base or a fixed amount -/
+def adjL (x : DocAdj) : Rat :=
+  match x.percent with
+  | some p => if pctIsZero p then 0 else (match x.base with | none => pctA p | some _ => 0)
+  | none => 0
+
+def adjRowWQ (s : Nat) (x : DocAdj) : Rat := adjR x + adjL x * (s : Rat)
+def adjWQ (s : Nat) (xs : List DocAdj) : Rat := (xs.map (adjRowWQ s)).sum
+
+/-- weight of sum − discounts + charges -/
+def total2WQ (d : Doc) : Rat :=
+  (sumW d.lines : Rat) + adjWQ (sumW d.lines) d.discounts + adjWQ (sumW d.lines) d.charges
+
+def cWQ (cb : Combo) : Rat :=
+  match cb.percent with
+  | some p => pctA p + (match cb.surcharge with | some s => pctA s | none => 0)
+  | none => 0
+
+def comboWQ (taxes : List Combo) : Rat := (taxes.map cWQ).sum
+
+def kNQ (inc : Option String) (taxes : List Combo) : Rat :=
+  match inc with
+  | none => 0
+  | some k => ((taxes.filter (fun cb => cb.cat == k)).map
+      (fun cb => match cb.percent with | some p => pctA p | none => 0)).sum
+
+def rowsWLQ (L : List Combo → Rat) (inc : Option String) (d : Doc) : Rat :=
+  (d.lines.map (fun l => ((lineW l : Rat) + (incB inc l.taxes : Rat)) * L l.taxes)).sum +
+  (d.discounts.map (fun x => (adjRowWQ (sumW d.lines) x + (incB inc x.taxes : Rat)) * L x.taxes)).sum +
+  (d.charges.map (fun x => (adjRowWQ (sumW d.lines) x + (incB inc x.taxes : Rat)) * L x.taxes)).sum
+
+def taxWQ (d : Doc) (G : Nat) : Rat := (G : Rat) + rowsWLQ comboWQ d.includes d
+def incWQ (d : Doc) (Gk : Nat) : Rat := (Gk : Rat) + rowsWLQ (kNQ d.includes) d.includes d
+def totalWQ (d : Doc) (Gk : Nat) : Rat := total2WQ d + incWQ d Gk
+def twtWQ (d : Doc) (G Gk : Nat) : Rat := totalWQ d Gk + taxWQ d G
+
+/-- an advance: 1 + |percentage| × weight of the total with tax; a fixed advance weighs nothing -/
+def advRowWQ (T : Rat) (a : Advance) : Rat :=
+  match a.percent with
+  | some p => 1 + pctA p * T
+  | none => 0
+
+def advWQ (d : Doc) (G Gk : Nat) : Rat := (d.advances.map (advRowWQ (twtWQ d G Gk))).sum
+def dueWQ (d : Doc) (G Gk : Nat) : Rat := twtWQ d G Gk + advWQ d G Gk
+
+/-- the largest tight weight of a calculated document -/
+def docWeightQ (d : Doc) : Rat :=
+  match calculate exactOps d with
+  | .ok out => (match out.totals with
+      | some t => dueWQ d (groupsT t) (incGroupsT d.includes t)
+      | none => 0)
   | .error _ => 0
 
 end GoblVerif.Calc.Err
